@@ -556,6 +556,115 @@ fn roundtrip(env: &Env, src: &mut Src<'_>) -> CaseResult {
 }
 
 // ------------------------------------------------------------------------------------------
+// sub-check: validly sealed records with arbitrary plaintext bytes
+// ------------------------------------------------------------------------------------------
+
+/// HPKE base mode authenticates nobody: whoever knows the helper's public key can seal any
+/// plaintext. The two sealed sections of an honest record are replaced by seals (same public
+/// key, same info) of generated plaintext bytes - canonical share encodings, share bytes with
+/// padding bits set, random bytes. Canonical plaintext must decrypt to exactly those shares,
+/// everything else must be an error value; nothing may panic.
+fn sealed_plaintext(env: &Env, src: &mut Src<'_>) -> CaseResult {
+    use crate::hpke::{PublicKeyRegistry, Serializable as _, seal_in_place};
+    let w = World::new(gen_spec(src))?;
+    expect_original(env, &w, &w.rec, "untouched record", attempt(&w.rec, &w.reg))?;
+    let mut t = Tally::new();
+    let Some(pk) = w.reg.public_key(w.spec.lookup_key) else {
+        return Err(violation("harness-no-key", "record decrypts but its key is not in the registry".to_string(), json!({})));
+    };
+    let info_enc: Box<[u8]> = match &w.report {
+        HybridReport::Conversion(r) => r.info.to_enc_bytes(),
+        HybridReport::Impression(r) => r.info.to_enc_bytes(),
+    };
+    let mut rng = StdRng::seed_from_u64(w.spec.enc_seed ^ 0x5ea1);
+    let variants = 6;
+    for _ in 0..variants {
+        // plaintext of the match key section: any 16 bytes are two BA64 shares
+        let mut mk = [0u8; MK];
+        for b in &mut mk {
+            *b = src.below(256) as u8;
+        }
+        // plaintext of the second section: one byte per share (BA8 for impressions, BA3 for conversions)
+        let class = src.pick(&["canonical", "one-padding-bit", "random"]);
+        let mut btt = [0u8; BTT];
+        let small_bits = if w.spec.conv { 3 } else { 8 };
+        for b in &mut btt {
+            *b = (src.below(256) as u8) & (((1u16 << small_bits) - 1) as u8);
+        }
+        match class {
+            "one-padding-bit" => {
+                let which = src.idx(BTT);
+                btt[which] |= 1 << (3 + src.below(5) as u8);
+            }
+            "random" => {
+                for b in &mut btt {
+                    *b = src.below(256) as u8;
+                }
+            }
+            _ => {}
+        }
+        let canonical = !w.spec.conv || btt.iter().all(|b| *b < 8);
+        // assemble: event byte | encap, ct, tag (match key) | encap, ct, tag (value) | key id | info
+        let mut rec = w.rec.clone();
+        let (mut p_mk, mut p_btt) = (mk, btt);
+        {
+            let (encap, ct, tag) = seal_in_place(pk, &mut p_mk, &info_enc, &mut rng).map_err(|e| violation("harness-seal", e.to_string(), json!({})))?;
+            let mut o = 1;
+            rec[o..o + ENC].copy_from_slice(&encap.to_bytes());
+            o += ENC;
+            rec[o..o + MK].copy_from_slice(ct);
+            o += MK;
+            rec[o..o + TAG].copy_from_slice(&tag.to_bytes());
+        }
+        {
+            let (encap, ct, tag) = seal_in_place(pk, &mut p_btt, &info_enc, &mut rng).map_err(|e| violation("harness-seal", e.to_string(), json!({})))?;
+            let mut o = 1 + ENC + MK + TAG;
+            rec[o..o + ENC].copy_from_slice(&encap.to_bytes());
+            o += ENC;
+            rec[o..o + BTT].copy_from_slice(ct);
+            o += BTT;
+            rec[o..o + TAG].copy_from_slice(&tag.to_bytes());
+        }
+        let what = format!("validly sealed record with plaintext match key {} and share bytes {} ({class})", hex(&mk), hex(&btt));
+        let out = attempt(&rec, &w.reg);
+        if canonical {
+            // must decrypt to exactly the sealed shares, with the original metadata
+            let mkv = |b: &[u8]| BA64::truncate_from(u128::from(u64::from_le_bytes(b.try_into().unwrap())));
+            let match_key = AdditiveShare::new(mkv(&mk[..8]), mkv(&mk[8..]));
+            let want: Report = match &w.report {
+                HybridReport::Conversion(r) => HybridReport::Conversion(HybridConversionReport::<BA3> {
+                    match_key,
+                    value: AdditiveShare::new(BA3::truncate_from(u128::from(btt[0])), BA3::truncate_from(u128::from(btt[1]))),
+                    info: r.info.clone(),
+                }),
+                HybridReport::Impression(r) => HybridReport::Impression(HybridImpressionReport::<BA8> {
+                    match_key,
+                    breakdown_key: AdditiveShare::new(BA8::truncate_from(u128::from(btt[0])), BA8::truncate_from(u128::from(btt[1]))),
+                    info: r.info.clone(),
+                }),
+            };
+            match out {
+                Out::Ok(r) if same_report(&r, &want) => t.add("sealed:canonical:ok".into()),
+                Out::Ok(r) => return Err(violation("sealed-different", format!("{what}: decrypts to a different report: {r:?}"), w.case_json(&what, &rec))),
+                Out::Err(e) => known_or_violation(env, "sealed-canonical-rejected", format!("{what}: rejected: {e}"), w.case_json(&what, &rec))?,
+                Out::Panic(loc, msg) => {
+                    on_panic(env, &loc, &msg, || w.case_json(&what, &rec))?;
+                }
+            }
+        } else {
+            match out {
+                Out::Err(_) => t.add(format!("sealed:{class}:err")),
+                Out::Ok(r) => known_or_violation(env, "sealed-noncanonical-accepted", format!("{what}: a share byte with padding bits set was accepted: {r:?}"), w.case_json(&what, &rec))?,
+                Out::Panic(loc, msg) => {
+                    on_panic(env, &loc, &msg, || w.case_json(&what, &rec))?;
+                }
+            }
+        }
+    }
+    finish(&w, t, json!({"sealed_variants": variants}))
+}
+
+// ------------------------------------------------------------------------------------------
 // sub-check: every single-bit flip
 // ------------------------------------------------------------------------------------------
 
@@ -1103,6 +1212,8 @@ pub fn subs(_env: &Env) -> Vec<Sub> {
         Sub::random("roundtrip", 96, 3_000, 100_000, roundtrip,
             "generated impression/conversion reports (BA8 breakdown key / BA3 value, boundary-biased shares; site domain length {0,1,2,254,255,random}, printable or any non-NUL ASCII; timestamp {0,1,2^63,u64::MAX,..}; epsilon/sensitivity {0,-0,subnormal,inf,NaN(+payload),max,random bits}; 1..4 registered keys, info key id equal to or independent of the lookup id) encrypted with a per-case registry: the record decrypts through the runner's path and the typed path to exactly the original (floats compared by bit pattern), has the advertised length, a second encryption differs and decrypts, delimited form = u16 length + record; every case is non-trivial")
             .shrink_iters(100),
+        Sub::random("sealed_plaintext", 160, 1_500, 60_000, sealed_plaintext,
+            "an adversarial but well-formed sender: the two sealed sections of an honest record are replaced by valid HPKE seals (same public key and info, so both AEAD tags verify) of generated plaintext - canonical shares, share bytes with one padding bit set, random bytes; canonical plaintext must decrypt to exactly those shares with the original metadata, anything else must be an error value, nothing may panic; 6 variants per record"),
         Sub::random("bitflips", 96, 480, 20_000, bitflips,
             "one case = one generated report x EVERY single-bit flip at every byte offset of the submitted record (event byte, both encapsulated keys, both ciphertexts, both tags, key id, info bytes); each flipped record must give Err - Ok(original) = tamper-ignored, Ok(other) = tamper-accepted, panic = crash; classes count flips per region and outcome")
             .shrink_iters(40),
